@@ -144,8 +144,15 @@ pub fn gen(rng: &mut Rng, idx: usize, n: usize, thorough: bool) -> String {
         6..=7 => { s.push_str(" P"); ex_str(&gen_ex(rng, nvars, 2 + frac / 30, true, false), &mut s) }
         _ => {
             // dtree plan: needs a non-empty clause list with non-empty clauses covering... (from_cnf / force_order guards)
-            let c = gen_cnf(rng, nvars, 2 + frac / 15, true);
-            let kind = rng.below(3);
+            let mut c = gen_cnf(rng, nvars, 2 + frac / 15, true);
+            let mut kind = rng.below(3);
+            // an empty clause among the others (the formula is unsatisfiable); FORCE's average-span
+            // heuristic underflows on an empty clause (recorded in DESIGN section 0), so not with it
+            if rng.chance(1, 6) {
+                let at = rng.below(c.len() as u64 + 1) as usize;
+                c.insert(at, vec![]);
+                kind = rng.below(2);
+            }
             let cnf = to_cnf(&c);
             let order = elim_order(&cnf, kind);
             let plan = BottomUpPlan::from_dtree(&DTree::from_cnf(&cnf, &order));
